@@ -498,3 +498,33 @@ func TestTTLPinnedConcurrentInsert(t *testing.T) {
 	}
 	sec.Sample(func() any { return "4 goroutines x Set(k{3g..3g+2}, ttl=100) on NewCache(InitialSize:1), then Get all 12" })
 }
+
+// TestTTLPinnedInsertVersusDelete is the regression for the second half of the writer-serialization repair: real
+// goroutines run the group of the failing history found by the thorough tier - inserts of new keys while other
+// goroutines delete and re-insert neighbouring keys and a Cleanup runs; afterwards a key whose only operation was a
+// completed Set must be readable.
+func TestTTLPinnedInsertVersusDelete(t *testing.T) {
+	sec := vk.Sec("TTLPinnedInsertVersusDelete")
+	iters := vk.Pick(60000, 600000) / vk.Shards()
+	k := func(i int) string { return fmt.Sprintf("k%d", i) }
+	for it := 0; it < iters; it++ {
+		c := ttlcache.NewCache[int](ttlcache.CacheOptions{InitialSize: 1})
+		c.Set(k(1), 1, 2)
+		c.Reset()
+		var wg sync.WaitGroup
+		run := func(f func()) { wg.Add(1); go func() { defer wg.Done(); f() }() }
+		run(func() { c.Delete(k(3)); c.Set(k(9), 9, 8); c.Delete(k(2)); c.Set(k(0), 0, 1) })
+		run(func() { c.Delete(k(0)); c.Set(k(4), 4, 8) })
+		run(func() { c.Cleanup(); c.Set(k(0), 0, 4); c.Set(k(0), 0, 6); c.Set(k(0), 0, 7) })
+		run(func() { c.Set(k(0), 0, 6); c.Set(k(1), 1, 4) })
+		wg.Wait()
+		for _, i := range []int{9, 4, 1} {
+			if v, ok := c.Get(k(i)); !ok || v != i {
+				t.Fatalf("C15 ttlcache violated: key k%d, written by a completed Set while other goroutines set and deleted other keys, reads (%d,%v) (iteration %d)", i, v, ok, it)
+			}
+		}
+		c.Stop()
+		sec.Case(true, vk.FP("pinned-insert-vs-delete", it%2), "pinned.insert-vs-delete")
+	}
+	sec.Sample(func() any { return "{del(k3);set(k9);del(k2);set(k0)} || {del(k0);set(k4)} || {cleanup;set(k0)x3} || {set(k0);set(k1)} on NewCache(InitialSize:1) after set(k1);reset; then Get k9,k4,k1" })
+}
